@@ -37,13 +37,23 @@ def complete_rows(events: List[Dict[str, Any]]) -> List[Row]:
     """One row per complete event: an entry that carries a duration and a category other than
     the profiler's own 'Trace' span.  Identified by its position in the list."""
     rows: List[Row] = []
+    # files written with sub-microsecond stamps (generator marker "_frac", never written to the file): the loader rounds every
+    # event inward - start up, end down (that rule itself is C01's subject) - and every analysis works on the rounded events
+    frac = any(e.get("_frac") for e in events)
     for i, e in enumerate(events):
         if e.get("dur") is None or e.get("cat") is None:
             continue
         if e["cat"] == "Trace":
             continue
         args = e.get("args") if isinstance(e.get("args"), dict) else {}
-        rows.append(Row(i, e.get("name"), e["cat"], e.get("pid"), e.get("tid"), e.get("ts"), e["dur"],
+        ts, dur = e.get("ts"), e["dur"]
+        if frac and ts is not None:
+            import math
+
+            end = math.floor(ts + dur)
+            ts = math.ceil(ts)
+            dur = end - ts
+        rows.append(Row(i, e.get("name"), e["cat"], e.get("pid"), e.get("tid"), ts, dur,
                         _stream_of(args), args.get("correlation", -1), args))
     return rows
 
